@@ -220,6 +220,11 @@ def gen_cases(rng, tier, h):
         cases.append([_img(rng, fmt, wpp, w, rng.pick([1, 2, 3])) for w in ws])
         hs = [256] + [rng.pick(pow2) for _ in range(1 if quick else 8)]
         cases.append([_img(rng, fmt, wpp, rng.pick([1, 2]), hh) for hh in hs])
+    # one image per format whose payload exceeds the 1 MiB stack of the harness' writer thread (the pixel words follow
+    # a formula both sides know; observed through a digest of the decoded text)
+    big = [("ppm", 640, 600), ("pgm", 1200, 950), ("pf", 520, 520), ("pf3", 300, 310), ("pf3a", 310, 300), ("pf4", 270, 260)]
+    for fmt, w, hh in (big if not quick else [big[0], rng.pick(big[1:])]):
+        cases.append(["imgpat %s %d %d %d" % (fmt, w, hh, rng.randrange(1 << 20))])
     # every format at the corner sizes
     for fmt, wpp in FORMATS:
         cases.append([_img(rng, fmt, wpp, w, hh) for (w, hh) in ((1, 1), (1, 2), (2, 1), (1, 5), (5, 1), (2, 3), (3, 2), (4, 3))])
@@ -231,7 +236,7 @@ def nontrivial(case):
         w = l.split()
         if w[0] == "save":
             return True
-        if w[0] == "img" and int(w[2]) * int(w[3]) >= 2:
+        if w[0] in ("img", "imgpat") and int(w[2]) * int(w[3]) >= 2:
             return True
     return False
 
